@@ -1,4 +1,5 @@
 import HappyModel.C14.BTree
+import HappyModel.C14.LsmSync
 /-!
 # B-tree and KVStore operations as segment machines
 
@@ -13,6 +14,12 @@ pay their latency first and then touch the data structure in one segment:
 * KVStore: one latency yield, then the action and the return.
 
 As for the LSM tree the engine's interleaving is an input: `run` takes the schedule of operation ids.
+
+The third kind of store, `lsm`, is the LSM tree as the transaction manager uses it: `get_sync`
+(`St.abs`), `put_sync` (`St.putSync`, the segments of `put` back to back) and the `get` generator
+(`Pc.gStart` / `Pc.gAt` of `Ops.lean`: the memtable and bloom-filter walk happen in the first segment,
+one page-read yield per SSTable that may hold the key).  Its own put / delete / scan generators are the
+subject of the `lsm` family (`Ops.lean`), not of this file.
 -/
 namespace HappyModel.C14.SM
 open HappyModel.C14 HappyModel.C14.BT
@@ -20,26 +27,32 @@ open HappyModel.C14 HappyModel.C14.BT
 inductive Store where
   | bt (t : BTree)
   | kv (d : KV)          -- the `dict`, as an association list sorted by key
+  | lsm (cfg : Cfg) (st : St)   -- LSM tree without WAL, driven through `put_sync` / `get_sync` / `get`
 
 def Store.getSync : Store → Key → Option Nat
   | .bt t, k => t.get k
   | .kv d, k => d.lookup k
+  | .lsm _ st, k => st.abs k
 
 def Store.putSync : Store → Key → Nat → Store
   | .bt t, k, v => .bt (t.put k v)
   | .kv d, k, v => .kv (upsert k v d)
+  | .lsm cfg st, k, v => .lsm cfg (st.putSync cfg k (some v))
 
 def Store.del : Store → Key → Store × Bool
   | .bt t, k => ((.bt (t.del k).1), (t.del k).2)
   | .kv d, k => (.kv (eraseKey k d), (d.lookup k).isSome)
+  | .lsm cfg st, k => (.lsm cfg (st.putSync cfg k none), (st.abs k).isSome)   -- (tombstone; not used by the transaction manager)
 
 def Store.size : Store → Nat
   | .bt t => t.size
   | .kv d => d.length
+  | .lsm _ _ => 0         -- (the LSM tree has no `size`)
 
 def Store.scan : Store → Key → Key → KV
   | .bt t, lo, hi => t.scan lo hi
   | .kv d, lo, hi => d.filter fun e => lo ≤ e.1 && e.1 < hi
+  | .lsm _ _, _, _ => []  -- (scans of the LSM tree: family `lsm`)
 
 inductive SOp where
   | put (k : Key) (v : Nat)
@@ -62,6 +75,7 @@ inductive SPc where
   | wait (op : SOp) (n : Nat)   -- `n` more latency segments before the segment that acts
   | fin (r : SRes)              -- acted, one more yield pending
   | done (r : SRes)
+  | lsmGet (pc : Pc)            -- inside `LSMTree.get`, suspended at a page read
 deriving Repr
 
 /-- number of yields before the operation touches the data -/
@@ -69,28 +83,48 @@ def yieldsBefore (s : Store) : SOp → Nat
   | .get _ => match s with
     | .bt t => t.depth
     | .kv _ => 1
+    | .lsm _ _ => 0
   | .size => 0
   | _ => 1
 
 /-- the acting segment: new store, result, and whether another yield follows -/
 def act (s : Store) : SOp → Store × SRes × Bool
-  | .put k v => (s.putSync k v, .ok, match s with | .bt _ => true | .kv _ => false)
-  | .del k => ((s.del k).1, .flag (s.del k).2, match s with | .bt _ => (s.del k).2 | .kv _ => false)
+  | .put k v => (s.putSync k v, .ok, match s with | .bt _ => true | _ => false)
+  | .del k => ((s.del k).1, .flag (s.del k).2, match s with | .bt _ => (s.del k).2 | _ => false)
   | .get k => (s, .val (s.getSync k), false)
   | .scan lo hi =>
     (s, .rows (s.scan lo hi), match s with
       | .bt t => (t.scan lo hi).length / (t.order - 1) > 0
-      | .kv _ => false)
+      | _ => false)
   | .size => (s, .num s.size, false)
 
 def doAct (s : Store) (op : SOp) : Store × SPc :=
   ((act s op).1, if (act s op).2.2 then .fin (act s op).2.1 else .done (act s op).2.1)
 
+/-- one segment of `LSMTree.get` (it never changes the tree) -/
+def lsmGetStep (cfg : Cfg) (st : St) (pc : Pc) : SPc :=
+  match (stepOp cfg st pc).2 with
+  | .done (.val c) => .done (.val c)
+  | .done _ => .done (.val none)
+  | pc' => .lsmGet pc'
+
+/-- the first segment of a `get` on an LSM store -/
+def lsmStart : Store → SOp → Option SPc
+  | .lsm cfg st, .get k => some (lsmGetStep cfg st (.gStart k))
+  | _, _ => none
+
 def stepS (s : Store) : SPc → Store × SPc
   | .start op =>
-    match yieldsBefore s op with
-    | 0 => doAct s op
-    | n + 1 => (s, .wait op n)
+    match lsmStart s op with
+    | some pc => (s, pc)
+    | none =>
+      match yieldsBefore s op with
+      | 0 => doAct s op
+      | n + 1 => (s, .wait op n)
+  | .lsmGet pc =>
+    match s with
+    | .lsm cfg st => (s, lsmGetStep cfg st pc)
+    | _ => (s, .done (.val none))
   | .wait op 0 => doAct s op
   | .wait op (n + 1) => (s, .wait op n)
   | .fin r => (s, .done r)
